@@ -98,3 +98,17 @@ pub mod miniapp {
         }
     }
 }
+
+/// Dry-run helper: invokes `target.func(args)`, then traps so that the host rolls everything back.
+pub mod dry {
+    use soroban_sdk::{contract, contractimpl, Address, Env, Symbol, Val, Vec};
+    #[contract]
+    pub struct Dry;
+    #[contractimpl]
+    impl Dry {
+        pub fn run(env: Env, target: Address, func: Symbol, args: Vec<Val>) {
+            let _ = env.try_invoke_contract::<Val, soroban_sdk::Error>(&target, &func, args);
+            panic!("dry run: roll back");
+        }
+    }
+}
